@@ -44,6 +44,11 @@ def run_runner_case(case: dict[str, Any]) -> dict[str, Any]:
             async def acb(*args: Any) -> None:
                 cb(*args)
 
+            if spec["id"] % 3 == 0:
+                # a plain function returning a non-coroutine awaitable (an object with __await__)
+                from .kernel import Awaitable
+
+                return lambda *args: Awaitable(acb(*args))
             return acb
         return cb
 
